@@ -123,3 +123,68 @@ extern "C" void c15_creators()
   bloc_free_value(reinterpret_cast<bloc_value*>(vi)); bloc_free_value(reinterpret_cast<bloc_value*>(vn));
   VX_WITNESS();
 }
+
+// K3: values stored through the API are the values read back; the payload is moved out of the caller's value; item access is bounded
+#include <blocc/executable.h>
+extern "C" void c15_store_load()
+{
+  bloc_context* ctx = bloc_create_context(1, 2);
+  bloc_type ti = { INTEGER, 0 };
+  bloc_symbol* s = bloc_ctx_register_symbol(ctx, "X", ti);
+  verif_assert(s != nullptr && bloc_ctx_find_symbol(ctx, "X") == s, "C15: a registered symbol is found again by name");
+  verif_assert(bloc_ctx_find_symbol(ctx, "Y") == nullptr, "C15: an unknown name yields NULL");
+  long i = in_long(0); bool isnull = in_bool(0);
+  bloc_value* v = isnull ? bloc_create_null(INTEGER) : bloc_create_integer(i);
+  bloc_bool ok = bloc_ctx_store_variable(ctx, s, v);
+  VX_WITNESS();
+  verif_assert(ok == bloc_true, "C15: storing an integer into an integer symbol succeeds");
+  verif_assert(bloc_value_isnull(v) == bloc_true, "C15: store moves the payload out of the caller's value (it becomes null, still freeable)");
+  bloc_value* r = bloc_ctx_load_variable(ctx, s);
+  int64_t* pi = (int64_t*)1;
+  verif_assert(r != nullptr && r != v && bloc_integer(r, &pi) == bloc_true, "C15: the loaded value is the library's own integer value");
+  verif_assert(isnull ? pi == nullptr : (pi != nullptr && *pi == i), "C15: values stored through the API are the values read back");
+  bloc_free_value(v);
+  /* a string into the integer symbol changes its type (not type-safe symbol): allowed; read back as string */
+  char txt[2]; txt[0] = (char)in_uchar(0); txt[1] = 0;
+  bloc_value* sv = bloc_create_literal(txt);
+  ok = bloc_ctx_store_variable(ctx, s, sv);
+  const char* ps = nullptr;
+  verif_assert(ok == bloc_true && bloc_literal(bloc_ctx_load_variable(ctx, s), &ps) == bloc_true && ps != nullptr && ps[0] == txt[0], "C15: a string stored through the API is read back as that string");
+  bloc_free_value(sv);
+}
+extern "C" void c15_items()
+{
+  Collection* col = new Collection(Type(Type::INTEGER, 0, 1)); col->reserve(2);
+  col->push_back(Value(Integer(10))); col->push_back(Value(Integer(20)));
+  Value* tv = new Value(col);
+  bloc_array* arr = nullptr;
+  verif_assert(bloc_table(reinterpret_cast<bloc_value*>(tv), &arr) == bloc_true && arr != nullptr && bloc_array_size(arr) == 2, "C15: bloc_table yields the table and its size");
+  unsigned idx = (unsigned)in_int(0);
+  bloc_value* item = (bloc_value*)1;
+  bloc_bool ok = bloc_array_item(arr, idx, &item);
+  VX_WITNESS();
+  verif_assert((ok == bloc_true) == (idx < 2), "C15: bloc_array_item succeeds exactly for an index below the size");
+  if (ok == bloc_true) { int64_t* pi = nullptr; verif_assert(bloc_integer(item, &pi) == bloc_true && pi && *pi == (idx == 0 ? 10 : 20), "C15: bloc_array_item yields element idx"); }
+  Tuple::container_t items(2); items[0] = Value(Integer(1)); items[1] = Value(Bool(true));
+  Value* uv = new Value(new Tuple(std::move(items)));
+  bloc_row* row = nullptr;
+  verif_assert(bloc_tuple(reinterpret_cast<bloc_value*>(uv), &row) == bloc_true && row != nullptr && bloc_tuple_size(row) == 2, "C15: bloc_tuple yields the tuple and its size");
+  ok = bloc_tuple_item(row, idx, &item);
+  verif_assert((ok == bloc_true) == (idx < 2), "C15: bloc_tuple_item succeeds exactly for an index below the size");
+}
+// K4: evaluation / execution wrappers: a BLOC error becomes NULL / false + errno, nothing escapes
+static int eval_mode;   /* 0 returns a value, 1 raises */
+struct ThrowExpr : SymExpr { Value& value(Context& c) const override { if (eval_mode == 1) throw RuntimeError(EXC_RT_DIVIDE_BY_ZERO); return SymExpr::value(c); } };
+extern "C" void c15_evaluate()
+{
+  bloc_context* ctx = bloc_create_context(1, 2);
+  ThrowExpr* e = new ThrowExpr; e->v = new Value(Integer(in_long(0))); e->t = Type(Type::INTEGER);
+  eval_mode = in_bool(0) ? 1 : 0;
+  bloc_value* r = (bloc_value*)1;
+  try { r = bloc_evaluate_expression(ctx, reinterpret_cast<bloc_expression*>(e)); } catch (...) { verif_assert(false, "C15/C01: no exception crosses the C API boundary"); return; }
+  VX_WITNESS();
+  if (eval_mode == 1) verif_assert(r == nullptr && bloc_errno() == EXC_RT_DIVIDE_BY_ZERO && bloc_strerror() != nullptr, "C15: a failed evaluation returns NULL with bloc_errno / bloc_strerror set");
+  else verif_assert(r == reinterpret_cast<bloc_value*>(e->v), "C15: a successful evaluation returns the (library-owned) result value");
+  bloc_type t = bloc_expression_type(ctx, reinterpret_cast<bloc_expression*>(e));
+  verif_assert((int)t.major == (int)Type::INTEGER && t.ndim == 0, "C15: bloc_expression_type reports the expression's type");
+}
